@@ -6,8 +6,8 @@ import Marwood.Num.F64
 Anchors: `marwood/src/number.rs` (`Add Sub Mul Div` for `&Number`, `quotient`, `Rem`, `modulo`,
 `abs floor ceil truncate round numerator denominator pow`) and `marwood/src/vm/builtin/number.rs`
 (`plus minus multiply divide quotient remainder modulo abs floor ceiling truncate numerator
-denominator expt`), as of the `fix:` commits 301e76d, 5bfb138 (quotient/remainder/modulo at the
-integer boundaries; division, expt, abs, floor, ceiling without 32-bit overflow).
+denominator expt`), as of the `fix:` commits 301e76d, 5bfb138, fcf9000 (quotient/remainder/modulo
+at the integer boundaries; division, expt, abs, floor, ceiling without 32-bit overflow).
 
 Conventions
 * `i64`/`i32` are `Int` with explicit range checks where Rust checks (`checked_*`), `BigInt` is `Int`.
@@ -139,6 +139,12 @@ def flo2 (op : F64 → F64 → F64) (a b : Num) : Num := .flo (op (toF a) (toF b
 
 def ofRatio (r : Ratio) : Num := .rat r.1 r.2
 
+/-- "a ratio when the checked routine succeeds, else the double fall-back" -/
+def ratArm (q : Option Ratio) (fallback : Num) : Num :=
+  match q with
+  | some q => ofRatio q
+  | none => fallback
+
 /-! ## `Add`, `Sub`, `Mul` for `&Number` -/
 
 def add (a b : Num) : Num :=
@@ -149,24 +155,18 @@ def add (a b : Num) : Num :=
   | .fix l, .big r => .big (r + l)
   | .fix l, .rat n d =>
     if inI32 l then
-      match checkedAdd (l, 1) (n, d) with
-      | some q => ofRatio q
-      | none => flo2 Fl.add a b
+      ratArm (checkedAdd (l, 1) (n, d)) (flo2 Fl.add a b)
     else flo2 Fl.add a b
   | .big l, .fix r => .big (l + r)
   | .big l, .big r => .big (l + r)
   | .big l, .rat n d => if d == 1 then .big (l + n) else flo2 Fl.add a b
   | .rat n d, .fix r =>
     if inI32 r then
-      match checkedAdd (r, 1) (n, d) with
-      | some q => ofRatio q
-      | none => flo2 Fl.add a b
+      ratArm (checkedAdd (r, 1) (n, d)) (flo2 Fl.add a b)
     else flo2 Fl.add a b
   | .rat n d, .big r => if d == 1 then .big (r + n) else flo2 Fl.add b a
   | .rat n d, .rat n' d' =>
-    match checkedAdd (n, d) (n', d') with
-    | some q => ofRatio q
-    | none => flo2 Fl.add a b
+    ratArm (checkedAdd (n, d) (n', d')) (flo2 Fl.add a b)
   | .flo _, _ => flo2 Fl.add a b
   | _, .flo _ => flo2 Fl.add a b
 
@@ -178,24 +178,18 @@ def sub (a b : Num) : Num :=
   | .fix l, .big r => .big (l - r)
   | .fix l, .rat n d =>
     if inI32 l then
-      match checkedSub (l, 1) (n, d) with
-      | some q => ofRatio q
-      | none => flo2 Fl.sub a b
+      ratArm (checkedSub (l, 1) (n, d)) (flo2 Fl.sub a b)
     else flo2 Fl.sub a b
   | .big l, .fix r => .big (l - r)
   | .big l, .big r => .big (l - r)
   | .big l, .rat n d => if d == 1 then .big (l - n) else flo2 Fl.sub a b
   | .rat n d, .fix r =>
     if inI32 r then
-      match checkedSub (n, d) (r, 1) with
-      | some q => ofRatio q
-      | none => flo2 Fl.sub a b
+      ratArm (checkedSub (n, d) (r, 1)) (flo2 Fl.sub a b)
     else flo2 Fl.sub a b
   | .rat n d, .big r => if d == 1 then .big (n - r) else flo2 Fl.sub a b
   | .rat n d, .rat n' d' =>
-    match checkedSub (n, d) (n', d') with
-    | some q => ofRatio q
-    | none => flo2 Fl.sub a b
+    ratArm (checkedSub (n, d) (n', d')) (flo2 Fl.sub a b)
   | .flo _, _ => flo2 Fl.sub a b
   | _, .flo _ => flo2 Fl.sub a b
 
@@ -207,24 +201,18 @@ def mul (a b : Num) : Num :=
   | .fix l, .big r => .big (r * l)
   | .fix l, .rat n d =>
     if inI32 l then
-      match checkedMul (l, 1) (n, d) with
-      | some q => ofRatio q
-      | none => flo2 Fl.mul a b
+      ratArm (checkedMul (l, 1) (n, d)) (flo2 Fl.mul a b)
     else flo2 Fl.mul a b
   | .big l, .fix r => .big (l * r)
   | .big l, .big r => .big (l * r)
   | .big l, .rat n d => if d == 1 then .big (l * n) else flo2 Fl.mul a b
   | .rat n d, .fix r =>
     if inI32 r then
-      match checkedMul (r, 1) (n, d) with
-      | some q => ofRatio q
-      | none => flo2 Fl.mul a b
+      ratArm (checkedMul (r, 1) (n, d)) (flo2 Fl.mul a b)
     else flo2 Fl.mul a b
   | .rat n d, .big r => if d == 1 then .big (r * n) else flo2 Fl.mul b a
   | .rat n d, .rat n' d' =>
-    match checkedMul (n, d) (n', d') with
-    | some q => ofRatio q
-    | none => flo2 Fl.mul a b
+    ratArm (checkedMul (n, d) (n', d')) (flo2 Fl.mul a b)
   | .flo _, _ => flo2 Fl.mul a b
   | _, .flo _ => flo2 Fl.mul a b
 
@@ -235,7 +223,7 @@ def mul (a b : Num) : Num :=
 def ratioOfI32 (n d : Int) : Outcome Num :=
   if d == 0 then .panic "Ratio::new: denominator == 0"
   else
-    let q : Rat := mkRat n d.natAbs * (if d < 0 then -1 else 1)
+    let q : Rat := Rat.divInt n d
     let n' := q.num
     let d' : Int := q.den
     if inI32 n' && inI32 d' then .ok (.rat n' d')
@@ -248,10 +236,7 @@ def asI32 : Num → Option Int
   | .big n => chk32 n
   | _ => none
 
-def ratOrFlo (q : Option Ratio) (a b : Num) : Num :=
-  match q with
-  | some q => ofRatio q
-  | none => flo2 Fl.div a b
+def ratOrFlo (q : Option Ratio) (a b : Num) : Num := ratArm q (flo2 Fl.div a b)
 
 def div (a b : Num) : Outcome Num :=
   match a, b with
@@ -286,16 +271,17 @@ def quotient (a b : Num) : Option (Outcome (Option Num)) :=
   match a, b with
   | .flo _, _ => none
   | _, .flo _ => none
-  | .rat _ d, _ =>
-    if d != 1 then some (.ok none) else
-    match a, b with
-    | .rat n _, .fix r => if r == 0 then some (.panic "i64 division by zero") else some (.ok (some (.fix (n.tdiv r))))
-    | .rat n _, .big r => if r == 0 then some (.panic "BigInt division by zero") else some (.ok (some (.big (n.tdiv r))))
-    | .rat n _, .rat n' d' =>
-      if d' != 1 then some (.ok none)
-      else if n' == 0 then some (.panic "i64 division by zero")
-      else some (.ok (some (.fix (n.tdiv n'))))
-    | _, _ => none
+  | .rat n d, .fix r =>
+    if d != 1 then some (.ok none)
+    else if r == 0 then some (.panic "i64 division by zero") else some (.ok (some (.fix (n.tdiv r))))
+  | .rat n d, .big r =>
+    if d != 1 then some (.ok none)
+    else if r == 0 then some (.panic "BigInt division by zero") else some (.ok (some (.big (n.tdiv r))))
+  | .rat n d, .rat n' d' =>
+    if d != 1 then some (.ok none)
+    else if d' != 1 then some (.ok none)
+    else if n' == 0 then some (.panic "i64 division by zero")
+    else some (.ok (some (.fix (n.tdiv n'))))
   | .fix l, .fix r =>
     if r == 0 then some (.panic "BigInt division by zero")
     else match chk64 (l.tdiv r) with
@@ -339,19 +325,25 @@ def rem (a b : Num) : Option (Outcome (Option Num)) :=
     else if n' == 0 then some (.panic "i32 remainder by zero") else some (.ok (some (.rat (n.tmod n') 1)))
   | _, _ => none
 
-/-- sign of an exact number as used by `modulo` (`num < 0`, `num > 0` through `PartialOrd`
-    against `Fixnum(0)`, which for exact operands is the sign of the numerator) -/
-def signOf : Num → Int
-  | .fix n => n.sign
-  | .big n => n.sign
-  | .rat n _ => n.sign
-  | .flo _ => 0
+/-- `num < 0` / `num > 0` as used by `modulo` (`PartialOrd` against `Fixnum(0)`, which for an exact
+    operand is the sign of the integer or of the numerator) -/
+def numNeg : Num → Bool
+  | .fix n => decide (n < 0)
+  | .big n => decide (n < 0)
+  | .rat n _ => decide (n < 0)
+  | .flo _ => false
+
+def numPos : Num → Bool
+  | .fix n => decide (0 < n)
+  | .big n => decide (0 < n)
+  | .rat n _ => decide (0 < n)
+  | .flo _ => false
 
 /-- `Number::modulo` (fix 301e76d): remainder, moved to the side of the divisor when the signs differ -/
 def modulo (a b : Num) : Option (Outcome (Option Num)) :=
   match rem a b with
   | some (.ok (some r)) =>
-    if (signOf r < 0 && signOf b > 0) || (signOf r > 0 && signOf b < 0) then some (.ok (some (add r b)))
+    if (numNeg r && numPos b) || (numPos r && numNeg b) then some (.ok (some (add r b)))
     else some (.ok (some r))
   | other => other
 
@@ -401,9 +393,10 @@ def denominator : Num → Option Num
   | .flo _ => none
   | _ => some (.fix 1)
 
-/-- `Number::pow` for an exact base.  The double fall-back of a rational base is `powf`; the model
-    computes the correctly rounded power of the rounded base (libm's `pow` is within one unit in
-    the last place of it, which is what the correspondence allows for this one arm). -/
+/-- `Number::pow` for an exact base (fix fcf9000: a rational power that leaves the i32 range is
+    computed exactly as a `BigRational` and converted to a double once — `Ratio<BigInt>::to_f64`
+    rounds to nearest-even with gradual underflow and overflow to ±inf).  Exponents beyond
+    `i32::MAX` take the `powf` path, which is not modelled. -/
 def pow (a : Num) (e : Nat) : Option Num :=
   match a with
   | .fix n => some (match chkPow inI64 n e with
@@ -411,13 +404,9 @@ def pow (a : Num) (e : Nat) : Option Num :=
     | none => .big (n ^ e))
   | .big n => some (.big (n ^ e))
   | .rat n d =>
-    some (match chkPow inI32 n e, chkPow inI32 d e with
-      | some n', some d' => .rat n' d'
-      | _, _ =>
-        -- `num.to_f64().powf(exp as f64)`: the base is rounded first
-        match Fl.toRat? (Fl.ofRatio n d) with
-        | some v => .flo (Fl.rnd (v ^ e))
-        | none => .flo Fl.canonNaN)
+    match chkPow inI32 n e, chkPow inI32 d e with
+    | some n', some d' => some (.rat n' d')
+    | _, _ => if e ≤ 2147483647 then some (.flo (Fl.rnd ((mkRat n d.toNat) ^ e))) else none
   | .flo _ => none
 
 /-! ## the procedures of builtin/number.rs on number arguments (in source order) -/
